@@ -159,6 +159,21 @@ def views(case):
         _check_views(rn, n, ctx, "output-" + form)
         if [int(x.as_int) for x in rn.readouts] != outs:
             raise Violation("int-vs-string-outputs", f"[{form}] read {[int(x.as_int) for x in rn.readouts]}, supplied {outs}\n{ctx}", where=form)
+    if outs:
+        # the outcomes 0 and 1 delivered as booleans (Python bool is an int; numpy.bool_ comes out
+        # of comparisons such as counts > threshold): the same readouts, the same counts
+        low = [k & 1 for k in outs]
+        st4, rb = guard(parse_jaqal_output_list, c, [bool(k) if i % 2 else np.bool_(k) for i, k in enumerate(low)], what="parse_jaqal_output_list(bools)")
+        st5, rl = guard(parse_jaqal_output_list, c, list(low), what="parse_jaqal_output_list(ints)")
+        if st5 == "ok":
+            if st4 == "err":
+                raise Violation("output-list-rejected", f"[bools] {rb}\nsupplied {low}\n{ctx}", where="bools")
+            _check_views(rb, n, ctx, "output-bools")
+            if [int(x.as_int) for x in rb.readouts] != low:
+                raise Violation("int-vs-string-outputs", f"[bools] read {[int(x.as_int) for x in rb.readouts]}, supplied {low}\n{ctx}", where="bools")
+            for x, y in zip(rb.subcircuits, rl.subcircuits):
+                if not np.array_equal(np.asarray(x.relative_frequency_by_int), np.asarray(y.relative_frequency_by_int)):
+                    raise Violation("int-vs-string-outputs", f"[bools] frequencies of subcircuit {x.index}: {list(x.relative_frequency_by_int)} for booleans, {list(y.relative_frequency_by_int)} for the same outcomes as ints\n{ctx}", where="bools")
     a = [(x.index, x.subcircuit.index, x.as_int, x.as_str) for x in ri.readouts]
     b = [(x.index, x.subcircuit.index, x.as_int, x.as_str) for x in rs.readouts]
     if a != b or [x[2] for x in a] != outs:
